@@ -23,6 +23,7 @@ import (
 
 func raceReq(id string) *fosite.Request {
 	r := fosite.NewRequest()
+	r.RequestedAt = time.Date(2000, 1, 1, 0, 0, 0, 0, time.UTC)
 	r.ID = id
 	r.Client = &fosite.DefaultClient{ID: "c"}
 	r.Session = NewSimSession("u")
@@ -138,7 +139,9 @@ func TestRaceStorePairs(t *testing.T) {
 						}(g, meth)
 					}
 					start.Done()
-					done.Wait()
+					if !waitOrDeadlock(t, &done, a.Name+"+"+b.Name) {
+						return
+					}
 				}
 			})
 		}
@@ -229,6 +232,20 @@ func (a raceApp) device(form url.Values, basic *Basic) {
 	a.p.WriteDeviceResponse(ctx, rec, dr, resp)
 }
 
+func (a raceApp) deviceResp(form url.Values, basic *Basic) string {
+	ctx := fosite.NewContext()
+	r := newHTTPRequest("POST", "/device/auth", nil, form, basic, "")
+	dr, err := a.p.NewDeviceRequest(ctx, r)
+	if err != nil {
+		return ""
+	}
+	resp, err := a.p.NewDeviceResponse(ctx, dr, NewSimSession(""))
+	if err != nil {
+		return ""
+	}
+	return resp.GetDeviceCode()
+}
+
 func (a raceApp) par(form url.Values, basic *Basic) {
 	ctx := fosite.NewContext()
 	rec := httptest.NewRecorder()
@@ -255,84 +272,133 @@ func TestRaceProviderPairs(t *testing.T) {
 	loadKeys()
 	HashSecret("s0")
 	HashSecret("s1")
-	ops := []string{"client_credentials", "authorize", "redeem", "refresh", "introspect", "revoke", "password", "device_authz", "par_push"}
-	fmt.Printf("RACE-PROBE provider ops=%d pairs=%d configs=2\n", len(ops), len(ops)*(len(ops)+1)/2)
-	for _, cfgKind := range []string{"default-constructed", "fully-populated"} {
+	ops := []string{"client_credentials", "authorize", "redeem", "refresh", "introspect", "revoke", "password", "device_authz", "par_push", "device_token"}
+	fmt.Printf("RACE-PROBE provider ops=%d pairs=%d configs=3\n", len(ops), len(ops)*(len(ops)+1)/2)
+	for _, cfgKind := range []string{"default-constructed", "fully-populated", "shared-credentials"} {
 		for i := 0; i < len(ops); i++ {
 			for j := i; j < len(ops); j++ {
 				a, b := ops[i], ops[j]
 				t.Run(cfgKind+"/"+a+"+"+b, func(t *testing.T) {
-					k := &Knobs{Clients: baseClients(nil), Users: map[string]string{"peter": "peters-password"}, Store: "plain"}
-					k.Clients[0].Secret, k.Clients[1].Secret = "s0", "s1"
-					cfg := k.BuildConfig(NewSimNet())
-					if cfgKind == "default-constructed" {
-						// what a user gets from &fosite.Config{GlobalSecret: ...}: strategies and hasher are defaulted lazily by the getters
-						cfg.ScopeStrategy, cfg.AudienceMatchingStrategy, cfg.ClientSecretsHasher = nil, nil, nil
-					} else {
-						cfg.ScopeStrategy, cfg.AudienceMatchingStrategy = fosite.WildcardScopeStrategy, fosite.DefaultAudienceMatchingStrategy
-					}
-					mem := storage.NewMemoryStore()
-					for i := range k.Clients {
-						mem.Clients[k.Clients[i].ID] = BuildClient(k.Clients[i])
-					}
-					mem.Users["peter"] = storage.MemoryUserRelation{Username: "peter", Password: "peters-password"}
-					app := raceApp{compose.ComposeAllEnabled(cfg, mem, Key("rsa0"))}
-					type creds struct{ code, rt, at string }
-					var cr [2]creds
-					for g := 0; g < 2; g++ {
-						cs := &k.Clients[g]
-						q := url.Values{"client_id": {cs.ID}, "response_type": {"code"}, "scope": {"offline photos"}, "state": {"state-abcdefgh"}, "redirect_uri": {cs.RedirectURIs[0]}}
-						r1 := app.authorize(q)
-						r2 := app.authorize(q)
-						tok := app.token(url.Values{"grant_type": {"authorization_code"}, "code": {r2.Params().Get("code")}, "redirect_uri": {cs.RedirectURIs[0]}}, &Basic{User: cs.ID, Pass: cs.Secret})
-						cr[g] = creds{r1.Params().Get("code"), tok.Str("refresh_token"), tok.Str("access_token")}
-					}
-					if cfgKind == "default-constructed" {
-						cfg.ScopeStrategy, cfg.AudienceMatchingStrategy, cfg.ClientSecretsHasher = nil, nil, nil // the prefix defaulted them; a fresh process starts with nil
-					}
-					run := func(g int, op string) {
-						cs := &k.Clients[g]
-						basic := &Basic{User: cs.ID, Pass: cs.Secret}
-						switch op {
-						case "client_credentials":
-							app.token(url.Values{"grant_type": {"client_credentials"}, "scope": {"photos"}}, basic)
-						case "authorize":
-							app.authorize(url.Values{"client_id": {cs.ID}, "response_type": {"code"}, "scope": {"photos"}, "state": {"state-abcdefgh"}, "redirect_uri": {cs.RedirectURIs[0]}})
-						case "redeem":
-							app.token(url.Values{"grant_type": {"authorization_code"}, "code": {cr[g].code}, "redirect_uri": {cs.RedirectURIs[0]}}, basic)
-						case "refresh":
-							app.token(url.Values{"grant_type": {"refresh_token"}, "refresh_token": {cr[g].rt}}, basic)
-						case "introspect":
-							app.introspect(url.Values{"token": {cr[1-g].at}}, basic)
-						case "revoke":
-							app.revoke(url.Values{"token": {cr[g].at}}, basic)
-						case "password":
-							app.token(url.Values{"grant_type": {"password"}, "username": {"peter"}, "password": {"peters-password"}, "scope": {"offline"}}, basic)
-						case "device_authz":
-							app.device(url.Values{"client_id": {cs.ID}, "scope": {"photos"}}, basic)
-						case "par_push":
-							app.par(url.Values{"client_id": {cs.ID}, "response_type": {"code"}, "state": {"state-abcdefgh"}, "redirect_uri": {cs.RedirectURIs[0]}}, basic)
+					for rep := 0; rep < raceReps(); rep++ {
+						k := &Knobs{Clients: baseClients(nil), Users: map[string]string{"peter": "peters-password"}, Store: "plain"}
+						k.Clients[0].Secret, k.Clients[1].Secret = "s0", "s1"
+						cfg := k.BuildConfig(NewSimNet())
+						if cfgKind == "default-constructed" {
+							// what a user gets from &fosite.Config{GlobalSecret: ...}: strategies and hasher are defaulted lazily by the getters
+							cfg.ScopeStrategy, cfg.AudienceMatchingStrategy, cfg.ClientSecretsHasher = nil, nil, nil
+						} else {
+							cfg.ScopeStrategy, cfg.AudienceMatchingStrategy = fosite.WildcardScopeStrategy, fosite.DefaultAudienceMatchingStrategy
 						}
-					}
-					var start, done sync.WaitGroup
-					start.Add(1)
-					for g, op := range []string{a, b} {
-						done.Add(1)
-						go func(g int, op string) {
-							defer done.Done()
-							defer func() {
-								if p := recover(); p != nil {
-									t.Errorf("PANIC in %s: %v", op, p)
+						mem := storage.NewMemoryStore()
+						for i := range k.Clients {
+							mem.Clients[k.Clients[i].ID] = BuildClient(k.Clients[i])
+						}
+						mem.Users["peter"] = storage.MemoryUserRelation{Username: "peter", Password: "peters-password"}
+						app := raceApp{compose.ComposeAllEnabled(cfg, mem, Key("rsa0"))}
+						type creds struct{ code, rt, at, dc string }
+						var cr [2]creds
+						for g := 0; g < 2; g++ {
+							cs := &k.Clients[g]
+							q := url.Values{"client_id": {cs.ID}, "response_type": {"code"}, "scope": {"offline photos"}, "state": {"state-abcdefgh"}, "redirect_uri": {cs.RedirectURIs[0]}}
+							r1 := app.authorize(q)
+							r2 := app.authorize(q)
+							tok := app.token(url.Values{"grant_type": {"authorization_code"}, "code": {r2.Params().Get("code")}, "redirect_uri": {cs.RedirectURIs[0]}}, &Basic{User: cs.ID, Pass: cs.Secret})
+							cr[g] = creds{code: r1.Params().Get("code"), rt: tok.Str("refresh_token"), at: tok.Str("access_token")}
+							// an approved device authorization (the verification page's work is done directly on the store)
+							for _, dr := range mem.DeviceAuths {
+								dr.SetUserCodeState(fosite.UserCodeAccepted)
+							}
+							before := len(mem.DeviceAuths)
+							dres := app.deviceResp(url.Values{"client_id": {cs.ID}, "scope": {"offline photos"}}, &Basic{User: cs.ID, Pass: cs.Secret})
+							if len(mem.DeviceAuths) > before {
+								for _, dr := range mem.DeviceAuths {
+									dr.SetUserCodeState(fosite.UserCodeAccepted)
+									dr.GrantScope("offline")
+									if ss, ok := dr.GetSession().(*SimSession); ok {
+										ss.SetSubject("u")
+									}
 								}
-							}()
-							start.Wait()
-							run(g, op)
-						}(g, op)
+							}
+							cr[g].dc = dres
+						}
+						if cfgKind == "default-constructed" {
+							cfg.ScopeStrategy, cfg.AudienceMatchingStrategy, cfg.ClientSecretsHasher = nil, nil, nil // the prefix defaulted them; a fresh process starts with nil
+						}
+						run := func(g int, op string) {
+							if cfgKind == "shared-credentials" {
+								g = 0 // both goroutines act as the same client on the SAME code / refresh token / access token
+							}
+							cs := &k.Clients[g]
+							basic := &Basic{User: cs.ID, Pass: cs.Secret}
+							switch op {
+							case "client_credentials":
+								app.token(url.Values{"grant_type": {"client_credentials"}, "scope": {"photos"}}, basic)
+							case "authorize":
+								app.authorize(url.Values{"client_id": {cs.ID}, "response_type": {"code"}, "scope": {"photos"}, "state": {"state-abcdefgh"}, "redirect_uri": {cs.RedirectURIs[0]}})
+							case "redeem":
+								app.token(url.Values{"grant_type": {"authorization_code"}, "code": {cr[g].code}, "redirect_uri": {cs.RedirectURIs[0]}}, basic)
+							case "refresh":
+								app.token(url.Values{"grant_type": {"refresh_token"}, "refresh_token": {cr[g].rt}}, basic)
+							case "introspect":
+								app.introspect(url.Values{"token": {cr[1-g].at}}, basic)
+							case "revoke":
+								app.revoke(url.Values{"token": {cr[g].at}}, basic)
+							case "password":
+								app.token(url.Values{"grant_type": {"password"}, "username": {"peter"}, "password": {"peters-password"}, "scope": {"offline"}}, basic)
+							case "device_authz":
+								app.device(url.Values{"client_id": {cs.ID}, "scope": {"photos"}}, basic)
+							case "device_token":
+								app.token(url.Values{"grant_type": {grantDevice}, "device_code": {cr[g].dc}}, basic)
+							case "par_push":
+								app.par(url.Values{"client_id": {cs.ID}, "response_type": {"code"}, "state": {"state-abcdefgh"}, "redirect_uri": {cs.RedirectURIs[0]}}, basic)
+							}
+						}
+						var start, done sync.WaitGroup
+						start.Add(1)
+						for g, op := range []string{a, b} {
+							done.Add(1)
+							go func(g int, op string) {
+								defer done.Done()
+								defer func() {
+									if p := recover(); p != nil {
+										t.Errorf("PANIC in %s: %v", op, p)
+									}
+								}()
+								start.Wait()
+								run(g, op)
+							}(g, op)
+						}
+						start.Done()
+						done.Wait()
 					}
-					start.Done()
-					done.Wait()
 				})
 			}
 		}
 	}
+}
+
+// waitOrDeadlock waits for the goroutines of one probe; a probe that does not finish is reported (and abandoned)
+// instead of hanging the whole check.
+func waitOrDeadlock(t *testing.T, done *sync.WaitGroup, what string) bool {
+	ch := make(chan struct{})
+	go func() { done.Wait(); close(ch) }()
+	select {
+	case <-ch:
+		return true
+	case <-time.After(20 * time.Second):
+		t.Errorf("DEADLOCK-SUSPECT %s: the two operations did not finish within 20 s", what)
+		fmt.Printf("DEADLOCK-SUSPECT %s\n", what)
+		return false
+	}
+}
+
+func raceReps() int {
+	if os.Getenv("SIM_RACE_REPS") != "" {
+		var n int
+		fmt.Sscanf(os.Getenv("SIM_RACE_REPS"), "%d", &n)
+		if n > 0 {
+			return n
+		}
+	}
+	return 3
 }
